@@ -39,6 +39,9 @@ class NumpyEncoder(json.JSONEncoder):
     def default(self, obj):
         if isinstance(obj, np.ndarray):
             return obj.tolist()
+        if isinstance(obj, np.generic):
+            # numpy scalars (e.g. the np.int64 produced by 1+1) become plain Python numbers
+            return obj.item()
         return json.JSONEncoder.default(self, obj)
 
 
